@@ -11,7 +11,7 @@ import dns.name
 import dns.tokenizer
 import dns.wire
 
-from harness.core import Ctx, enc_labels, hx
+from harness.core import Ctx, Stalled, enc_labels, hx
 
 RULE = (
     "cases are generated from one SplitMix64 state: structured names (label lengths from {0,1,2,3,5,31,62,63}, "
@@ -100,6 +100,8 @@ def outcome(fn, fmt):
     except ValueError as e:
         return "err ValueError", None
     except BaseException as e:  # foreign
+        if isinstance(e, (KeyboardInterrupt, SystemExit, Stalled)):
+            raise
         return "FOREIGN " + type(e).__name__, None
     return "ok " + fmt(v), v
 
